@@ -44,6 +44,7 @@ static Byte         ForceSegment;
 static LongWord StartAdr[SegCount], StopAdr[SegCount], LineLen, EntryAdr;
 static LargeInt Relocate;
 static Boolean  StartAuto, StopAuto, AutoErase, EntryAdrPresent;
+static Boolean  AdrRangeGiven;
 static Word     Seg, Ofs;
 static LongWord Dummy;
 static Byte     IntelMode;
@@ -842,6 +843,7 @@ static CMDResult CMD_AdrRange(Boolean Negate, char const* Arg) {
         DefStartStopAdr(1 << SegCode);
         return CMDOK;
     } else {
+        AdrRangeGiven = True;
         return CMD_Range(
                 &StartAdr[SegCode], &StopAdr[SegCode], &StartAuto, &StopAuto, Arg);
     }
@@ -1194,6 +1196,13 @@ int main(int argc, char** argv) {
     ProcessCMD(
             argc, argv, P2HEXParams, P2HEXParamCnt, ParUnprocessed, "P2HEXCMD",
             ParamError);
+
+    /* -r addresses the segment selected with -segment */
+
+    if (AdrRangeGiven && (ForceSegment != SegNone) && (ForceSegment != SegCode)) {
+        StartAdr[ForceSegment] = StartAdr[SegCode];
+        StopAdr[ForceSegment]  = StopAdr[SegCode];
+    }
 
     if (!QuietMode) {
         as_snprintf(Ver, sizeof(Ver), "P2HEX/C V%s", Version);
